@@ -539,6 +539,33 @@ impl<'c> G<'c> {
                 }
             }
         }
+        // now and then two members declare the same key with types that only differ below their top level: unions of the same
+        // size with one member exchanged ({s: string | number} & {s: string | boolean}), or nested objects with the same
+        // keys and different leaves ({s: {x: string}} & {s: {x: number}})
+        if s.chance(1, 6) && parts.len() >= 2 {
+            let (a, b) = match s.below(3) {
+                0 => (D::Union(vec![D::Str, D::Num]), D::Union(vec![D::Str, D::Bool])),
+                1 => (
+                    D::Object { props: vec![Prop { key: "x".into(), ty: D::Str, optional: false }], index: None },
+                    D::Object { props: vec![Prop { key: "x".into(), ty: D::Num, optional: false }], index: None },
+                ),
+                _ => (
+                    D::Object { props: vec![Prop { key: "x".into(), ty: D::Union(vec![D::Str, D::Num]), optional: false }], index: None },
+                    D::Object { props: vec![Prop { key: "x".into(), ty: D::Union(vec![D::Num, D::Null]), optional: false }], index: None },
+                ),
+            };
+            let key = "b".to_string();
+            let mut done = 0;
+            for (part, ty) in parts.iter_mut().zip([a, b]) {
+                if let D::Object { props, index: None } = part {
+                    if !props.iter().any(|q| q.key == key) {
+                        props.push(Prop { key: key.clone(), ty, optional: false });
+                        done += 1;
+                    }
+                }
+            }
+            let _ = done;
+        }
         // now and then every member also admits null: (A | null) & (B | null) = (A & B) | null, an intersection
         // whose value need not be an object
         if self.cfg.inter_nullable && s.chance(1, 6) {
